@@ -258,3 +258,43 @@ func checkEngineCallbackDefaults(c *Ctx, rule string) {
 	}
 	c.Min(rule, "default callback slots of a new engine", n, 8)
 }
+
+// checkPlayerRecordWritersLocked: the open step installs a JSON CLONE of the table while it holds
+// the engine mutex (clone → positions → swap). An exported engine operation that writes a field
+// of an existing player record (bankroll, seated-in flag) of the live table without holding that
+// mutex can therefore write into the pre-clone record between the clone and the swap: the write
+// is acknowledged and lost. Such an operation must take the engine mutex in its entry block
+// (Lock first, deferred Unlock), before it reads the table.
+func checkPlayerRecordWritersLocked(c *Ctx, rule, field, what string) {
+	p := c.P
+	et := p.singleImpl("", "TableEngine")
+	if et == nil {
+		c.Bad(rule, "record-writer-locked", "-", "engine not found")
+		return
+	}
+	lc := p.lifecycle()
+	n := 0
+	for _, f := range p.Methods(et) {
+		if o := f.Object(); o == nil || !o.Exported() || f == lc.creator {
+			continue
+		}
+		writes := false
+		for _, ss := range p.Stores([]*ssa.Function{f}) {
+			if ss.Owner == "TablePlayerState" && ss.Field == field && !storeIsLocal(ss.Instr) && ss.Addr.Root().Kind != "new" {
+				writes = true
+			}
+		}
+		if !writes {
+			continue
+		}
+		n++
+		ok, d := lockIdiom(p, f, "tableEngine.lock", "Lock", "Unlock")
+		key := "record-writer-locked:" + field + ":" + fnName(f)
+		if ok {
+			c.Ok(rule, key, p.Pos(f.Pos()), "engine mutex from entry")
+		} else {
+			c.Bad(rule, key, p.Pos(f.Pos()), fnName(f)+" writes "+what+" of a live player record without holding the engine mutex from entry ("+d+"): racing with the asynchronous hand opening (clone → swap) the write lands in the replaced table and is lost")
+		}
+	}
+	c.Min(rule, "exported operations writing "+what, n, 1)
+}
